@@ -94,7 +94,7 @@ func c10b(b bool) *bool { return &b }
 
 // one client operation handed to the client goroutine
 type c10Op struct {
-	kind    string // "R", "W", "X", "CI" (close own stdin), "B" (wait to be aborted)
+	kind    string // "R", "W", "X", "CI" (close own stdin), "CO" (close own stdout), "B" (wait to be aborted)
 	wkind   string
 	name    string
 	fail    bool
@@ -197,7 +197,7 @@ func c10RunWith(script string, hist [][]any, slowCb bool, osc *c10OSClient) c10R
 			}
 			return nil
 		}
-		inClosed, fatalWritten := false, false
+		inClosed, outClosed, fatalWritten := false, false, false
 		for {
 			var op *c10Op
 			var ok bool
@@ -214,8 +214,20 @@ func c10RunWith(script string, hist [][]any, slowCb bool, osc *c10OSClient) c10R
 			case "R":
 				close(op.started)
 				doRead()
+			case "CO":
+				close(op.started)
+				if outClosed {
+					continue
+				}
+				log.put(c10Event{E: "CloseOutCall"})
+				_ = out.Close()
+				outClosed = true
+				log.put(c10Event{E: "CloseOutRet"})
 			case "W":
 				close(op.started)
+				if outClosed {
+					continue // (the specification offers no write once the client has closed its stdout)
+				}
 				r := doWrite(op.wkind, op.name)
 				if r == "aborted" || op.wkind == "trunc" {
 					return exit(false)
@@ -347,7 +359,7 @@ func c10RunWith(script string, hist [][]any, slowCb bool, osc *c10OSClient) c10R
 			if !waitStarted(cmd.started, fmt.Sprintf("send #%d of %s", sent[s], s)) {
 				hung = true
 			}
-		case "R", "W", "X", "CI", "B":
+		case "R", "W", "X", "CI", "CO", "B":
 			if !clientOpen {
 				continue
 			}
